@@ -49,6 +49,10 @@ def install(ex):
         from bsvc.values import Obj, ClassRef
         if isinstance(a0, Obj):
             return ClassRef(a0.cls)
+        if isinstance(a0, (list, dict, tuple, str, set)):
+            return Builtin(type(a0).__name__)
+        if type(a0).__name__ == 'DataFrameVal':
+            return Builtin('pandas.DataFrame')
         return Builtin('type:' + type(a0).__name__)
     ex.ext_builtins['type'] = type_
 
